@@ -17,7 +17,11 @@ class Search(FilterFunction):
 
     def __call__(self, string: str, pattern: object) -> bool:
         """Return `True` if _string_ contains _pattern_, or `False` otherwise."""
-        if not isinstance(pattern, str) or not check(pattern):
+        try:
+            # `check` can't encode a pattern containing a lone surrogate
+            if not isinstance(pattern, str) or not check(pattern):
+                return False
+        except UnicodeEncodeError:
             return False
 
         try:
